@@ -80,7 +80,8 @@ A_OPTIONS = st.fixed_dictionaries({}, optional={
     "invalid_items": st.sampled_from(["exclude", "preserve"]), "invalid_keys": st.sampled_from(["exclude", "preserve"]),
     "invalid_values": st.sampled_from(["exclude", "preserve"]), "cast_keyword_str": st.just(True), "addition": st.sampled_from([True, False]),
 })
-A_ENTRIES = ["call", "transform", "schema", "dataclass", "param", "return", "setattr", "from"]
+A_ENTRIES = ["call", "transform", "schema", "dataclass", "param", "return", "setattr", "from", "init_pos", "init_mixed"]
+DATA_ONLY = ("from", "init_pos", "init_mixed")
 
 
 def run_a(case):
@@ -92,11 +93,16 @@ def run_a(case):
         raise HarnessError("one-shot input")
     try:
         T = tspec.build(spec)
-        if entry == "from":
+        if entry in DATA_ONLY:
             if spec["k"] != "data":
-                raise HarnessError("'from' entry needs a data spec")
+                raise HarnessError("this entry needs a data spec")
             o = entries.make_options(opts)
-            fn = (lambda x: T.__from__(x, o)) if o is not None else (lambda x: T.__from__(x))
+            if entry == "from":
+                fn = (lambda x: T.__from__(x, o)) if o is not None else (lambda x: T.__from__(x))
+            elif entry == "init_pos":
+                fn = lambda x: T(x)
+            else:
+                fn = None   # built below: positional dict plus keyword arguments
         else:
             fn = entries.build_entry(entry, T, opts)
     except HarnessError:
@@ -104,6 +110,12 @@ def run_a(case):
     except decl_errors():
         return {"status": "discarded", "fails": []}
     x = codec.decode(vs)
+    if entry == "init_mixed":
+        if not isinstance(x, dict) or not all(isinstance(k, str) for k in x):
+            return {"status": "discarded", "fails": []}
+        keys = list(x)
+        kw = {k: x.pop(k) for k in keys[len(keys) // 2:]}
+        fn = lambda d: T(d, **kw)
     before, ids_before = snapshot(x)
     out = oracle.outcome(fn, x)
     after, ids_after = snapshot(x)
@@ -143,7 +155,7 @@ def a_cases(thorough):
 
     def with_value(spec):
         vals = st.one_of(gen.conforming(spec), gen.conforming(spec), gen.hostile(max_leaves=8)).filter(lambda v: has_mutable(v) and not _os(v))
-        ents = st.sampled_from(A_ENTRIES if spec["k"] == "data" else A_ENTRIES[:-1])
+        ents = st.sampled_from(A_ENTRIES + ["init_mixed", "init_pos", "from"] if spec["k"] == "data" else [e for e in A_ENTRIES if e not in DATA_ONLY])
         return st.fixed_dictionaries({"part": st.just("a"), "type": st.just(spec), "value": vals, "options": A_OPTIONS, "entry": ents})
     return ts.flatmap(with_value)
 
